@@ -35,7 +35,9 @@ def sweep_project():
                 if (i % 2 == 0) == (ns == "common"):
                     tree.append(["k%d" % (i + 1), {"k": "raw", "v": ("a" + ch + "b") if l == "en" else ch}])
             data[(ns, l)] = tree
-    return {"cfg": {"default": "en", "locales": ["en", "fr"], "namespaces": ["common", "home"], "inherits": {}, "locales_dir": None}, "data": data}
+    data[("vars", "en")] = [["k0", {"k": "raw", "v": "{{ x }}"}]]
+    data[("vars", "fr")] = [["k0", {"k": "raw", "v": "{{ x }}"}]]
+    return {"cfg": {"default": "en", "locales": ["en", "fr"], "namespaces": ["common", "home", "vars"], "inherits": {}, "locales_dir": None}, "data": data}
 
 
 def build_project(rng):
@@ -58,6 +60,14 @@ def build_project(rng):
                 else:
                     tree.append([k, {"k": "raw", "v": gen.pick(rng, HOSTILE) + " {{ x }} " + gen.pick(rng, HOSTILE)}])
             data[(ns, l)] = tree
+    if nss is not None and rng.random() < 0.6:
+        # a unit that holds no string at all in some (or every) locale: only interpolated values
+        nss.append("vars")
+        for i, l in enumerate(locales):
+            if i == 0 and rng.random() < 0.5:
+                data[("vars", l)] = [["k0", {"k": "raw", "v": "{{ x }}"}], ["k1", {"k": "raw", "v": "text@" + l}]]
+            else:
+                data[("vars", l)] = [["k0", {"k": "raw", "v": "{{ x }}"}], ["k1", {"k": "raw", "v": "{{ x }}{{ x }}"}]]
     return {"cfg": {"default": locales[0], "locales": list(locales), "namespaces": nss, "inherits": {}, "locales_dir": None}, "data": data}
 
 
